@@ -15,7 +15,7 @@ type ForInfo struct {
 	Nested, ZeroCount, EquCount, CounterArith, Sequential           bool
 	LabelUsedInside, LabelUsedOutside, BodyStartsWithFor, NoCounter bool
 	EquBetweenBlocks, LabelledBodyStartsWithBareFor, ChainedEqu     bool
-	EquInsideBlock                                                  bool
+	EquInsideBlock, LabelledBodyStartsWithSilentFor, EmptyBody      bool
 }
 
 type forGen struct {
@@ -163,6 +163,11 @@ func (g *forGen) block(depth int, counters []string, budget int, mayLabel bool, 
 		per = (budget - 1) / int(v)
 	}
 	nBody := rapid.IntRange(1, 3).Draw(t, "nbody")
+	if len(labels) == 0 && Rare(t, "emptybody", 4) {
+		nBody = 0 // for n / rof
+		g.info.EmptyBody = true
+	}
+	needInstr := false
 	for k := 0; k < nBody; k++ {
 		wantFor := depth < 3 && per >= 1 && rapid.IntRange(0, 3).Draw(t, "inner") == 0
 		if wantFor && k == 0 && len(labels) > 0 {
@@ -173,8 +178,14 @@ func (g *forGen) block(depth int, counters []string, budget int, mayLabel bool, 
 			g.info.Nested = true
 			var inner rc.Item
 			var n int
-			if k == 0 && len(labels) > 0 {
+			if k == 0 && len(labels) > 0 && rapid.Bool().Draw(t, "firstemits") {
 				inner, n = g.forcedEmitting(depth+1, counters, per)
+			} else if k == 0 && len(labels) > 0 {
+				// the first inner block may emit nothing (count 0, empty body): the labels then
+				// belong to whatever the labelled block emits first after it
+				g.info.LabelledBodyStartsWithSilentFor = true
+				inner, n = g.block(depth+1, counters, per, false, nil)
+				needInstr = true
 			} else {
 				var ilabs []string
 				if mayLabel && v == 1 && rapid.IntRange(0, 3).Draw(t, "ilab") == 0 && len(g.blkLabs) > g.nBlock {
@@ -189,6 +200,10 @@ func (g *forGen) block(depth int, counters []string, budget int, mayLabel bool, 
 		} else {
 			it.Body = append(it.Body, g.instr(counters, nil))
 		}
+	}
+	if needInstr {
+		// a labelled block emits at least one instruction
+		it.Body = append(it.Body, g.instr(counters, nil))
 	}
 	return it, used
 }
